@@ -236,6 +236,28 @@ example : pluginParser (render ['p'] [(['k', '='], ['v', ',', 'w']), (['x'], [])
 /-- without normal form the writer is NOT injective on what is read back (surrounding blanks are lost) -/
 example : pluginParser (render [' ', 'p'] []) = pluginParser (render ['p'] []) := by decide
 
+/-- One trailing comma is ignored — for EVERY string, not only rendered ones. If the appended comma is read
+    as a separator (it is not swallowed as `\,` by a dangling backslash at the end of `s`: first hypothesis,
+    on the un-escaped text) and `s` does not itself end in an unescaped comma (second hypothesis: only ONE
+    trailing comma is ignored), then `s,` parses to exactly what `s` parses to — value or error. -/
+theorem trailing_comma_ignored (s : List Char)
+    (h1 : tokenize (s ++ [',']) = tokenize s ++ [.comma])
+    (h2 : (tokenize s).getLast? ≠ some .comma) :
+    pluginParser (s ++ [',']) = pluginParser s := by
+  rw [pluginParser_eq_scanU, pluginParser_eq_scanU, h1]
+  have e1 : dropTrailingComma (tokenize s ++ [.comma]) = tokenize s := by
+    simp [dropTrailingComma]
+  have e2 : dropTrailingComma (tokenize s) = tokenize s := by
+    simp [dropTrailingComma, h2]
+  rw [e1, e2]
+
+/-- both hypotheses are needed: a dangling backslash swallows the comma, and a second trailing comma is an
+    (empty) argument -/
+example : tokenize (['p', ',', 'k'] ++ [',']) = tokenize ['p', ',', 'k'] ++ [.comma] ∧
+    (tokenize ['p', ',', 'k']).getLast? ≠ some .comma := by decide
+example : pluginParser (['p', '\\'] ++ [',']) ≠ pluginParser ['p', '\\'] := by decide
+example : pluginParser (['p', ','] ++ [',']) ≠ pluginParser ['p', ','] := by decide
+
 end Slicec.C19
 
 #print axioms Slicec.C19.rejects_empty
@@ -251,3 +273,4 @@ end Slicec.C19
 #print axioms Slicec.C19.reparse_fixed_point
 #print axioms Slicec.C19.render_injective
 #print axioms Slicec.C19.trim_idempotent
+#print axioms Slicec.C19.trailing_comma_ignored
